@@ -433,6 +433,39 @@ func driveNonce(c *ctx) {
 		}
 		_ = f.Close()
 	}
+	// RFC 6979 nonces of a chosen SHAPE: digests are searched (with an untrusted re-implementation of the generator) until the first
+	// candidate has a zero top byte, two zero top bytes, an all-ones top byte, a zero low byte — a nonce is the first candidate in
+	// [1, n) whatever it looks like (no "suitability" screening, no reduction)
+	{
+		shapes := []struct {
+			name string
+			ok   func(k []byte) bool
+		}{
+			{"top_zero", func(k []byte) bool { return k[0] == 0 }},
+			{"top_ff", func(k []byte) bool { return k[0] == 0xff }},
+			{"low_zero", func(k []byte) bool { return k[31] == 0 }},
+			{"top_bit_clear_next_ff", func(k []byte) bool { return k[0] == 0x7f }},
+			{"top_two_zero", func(k []byte) bool { return k[0] == 0 && k[1] == 0 }},
+		}
+		for ki := 0; ki < c.scale(2, 6); ki++ {
+			d := add(randBig(rng, add(bigN, -1)), 1)
+			priv := privFrom(d)
+			for si, sh := range shapes {
+				if si == 4 && ki > 0 && !c.thorough() {
+					continue
+				}
+				for ctr := 0; ctr < 400000; ctr++ {
+					dg := sha256Sum(append(be32(d)[:], byte(ctr), byte(ctr>>8), byte(ctr>>16), byte(si)))
+					e := new(big.Int).Mod(new(big.Int).SetBytes(dg), bigN)
+					if k := rfc6979First(d, e); sh.ok(be32(k)[:]) {
+						r, s, v, err := priv.SignRaw(secec.RFC6979SHA256(), dg)
+						c.E("sig.Raw", "d", h32(d), "digest", hx(dg), "rng", "rfc6979", "ok", err == nil, "r", scHexOr(r), "s", scHexOr(s), "v", int(v), "shape", sh.name)
+						break
+					}
+				}
+			}
+		}
+	}
 	// public RFC 6979 signatures: byte-for-byte the deterministic signature
 	for i := 0; i < c.scale(60, 2000); i++ {
 		d := add(randBig(rng, add(bigN, -1)), 1)
